@@ -560,3 +560,7 @@ mod tests {
         );
     }
 }
+
+#[cfg(all(test, feature = "pendulum_project_ntpd_rs_verif"))]
+#[path = "../../../verif/harness/statime_base/time_types.rs"]
+mod verif_time_types;
